@@ -321,6 +321,7 @@ func GenProfile(r *Rng, k Knobs) *profile.Profile {
 				s.NumLabel[key] = vs
 				switch r.Intn(3) {
 				case 0: // no units
+					delete(s.NumUnit, key)
 				case 1:
 					us := make([]string, n)
 					for q := range us {
